@@ -405,6 +405,21 @@ def build():
 
     add("lp_request", lp_request, 2)
 
+    def gps_years(r):
+        """GPS records whose two-digit year runs over the whole range (parsing must not window it against 'today')"""
+        import datetime
+        from okdmr.dmrlib.hytera.pdu.location_protocol import GPSData
+        out = []
+        for yy in (0, 15, 26, 27, 38, 50, 69, 70, 99):
+            g = GPSData(data_valid="A", greenwich_time=datetime.time(1, 2, 3), greenwich_date=datetime.date(2000 + yy, 6, 7),
+                        north_south="N", latitude=4718.8051, east_west="E", longitude=1854.4387, speed_knots=1.5, direction=7)
+            raw = wrap(g.as_bytes())
+            p = GPSData.from_bytes(raw)
+            out.append((p, p.as_bytes()))
+        return out, []
+
+    add("gps_years", gps_years, 1)
+
     def hytera_generated(idx):
         """every implemented RRS / LP / TMP / RCP opcode with generated field values (the builders of the C12 driver): parse the
         serialised PDU; different instances of one family carry different values, so that state leaking from one decode
